@@ -10,6 +10,7 @@ import (
 	"crypto/elliptic"
 	"crypto/rand"
 	"crypto/rsa"
+	"crypto/sha256"
 	"encoding/json"
 	"fmt"
 	"math/big"
@@ -30,9 +31,11 @@ import (
 	"github.com/cloudflare/pat-go/tokens/type2"
 	"github.com/cloudflare/pat-go/tokens/type3"
 	"github.com/cloudflare/pat-go/tokens/type5"
+	"github.com/cloudflare/pat-go/util"
 	"pgregory.net/rapid"
 
 	"verifharness/internal/gen"
+	"verifharness/internal/ref"
 	"verifharness/internal/rt"
 )
 
@@ -58,12 +61,13 @@ var kinds = map[string][]string{
 	"ed25519-keys":     {"Sign", "Verify", "BlindPublicKey", "UnblindPublicKey", "BlindKeySign", "Public"},
 	"ecdsa-generate":   {"GenerateKey", "Sign"},
 	"clients":          {"Issue1", "Issue2", "Issue3", "Issue5"},
+	"rsa-key-ids":      {"KeyID2", "KeyID3", "MarshalTokenKey", "KeyID2", "KeyID3"},
 	"ed25519-firstuse": {"Sign", "Verify", "NewKeyFromSeed", "BlindKeySign"},
 	"ecdsa-firstuse":   {"Sign", "Verify", "GenerateKey"},
 }
 
 func kindNames() []string {
-	return []string{"type1-issuer", "type5-issuer", "type2-issuer", "type3-issuer", "batch-issuer", "ecdsa-keys", "ed25519-keys", "ecdsa-generate", "clients"}
+	return []string{"type1-issuer", "type5-issuer", "type2-issuer", "type3-issuer", "batch-issuer", "ecdsa-keys", "ed25519-keys", "ecdsa-generate", "clients", "rsa-key-ids"}
 }
 
 // a check to run after the goroutines have joined
@@ -415,6 +419,64 @@ func execute(p Plan) error {
 							}
 							if _, err := s2.FinalizeToken(list[1]); err != nil {
 								return fmt.Errorf("entry 1 does not finalize: %v", err)
+							}
+							return nil
+						}
+					})
+				}
+			}
+		case "rsa-key-ids":
+			// several RSA token keys live in one process (key rotation, several issuers): their encodings and key ids are
+			// computed concurrently, many times over, and every single value is compared with the sequential one
+			// (computed by the harness's own DER template, not by the code under test)
+			nKeys := 2 + int(seed[1])%3
+			type entry struct {
+				iss2   *type2.BasicPublicIssuer
+				iss3   *type3.RateLimitedIssuer
+				pub    *rsa.PublicKey
+				wantID []byte
+				want   []byte
+			}
+			var es []entry
+			for k := 0; k < nKeys; k++ {
+				pool := gen.RSAPool()[(int(seed[0])+k)%8]
+				enc := ref.TokenKeyPSS(pool.N, big.NewInt(int64(pool.E)))
+				id := sha256.Sum256(enc)
+				i3 := type3.NewRateLimitedIssuer(freshRSA(pool))
+				if i3 == nil {
+					prepErr = fmt.Errorf("NewRateLimitedIssuer returned nil")
+					return
+				}
+				es = append(es, entry{type2.NewBasicPublicIssuer(freshRSA(pool)), i3, &rsa.PublicKey{N: new(big.Int).Set(pool.N), E: pool.E}, id[:], enc})
+			}
+			for g := range p.Ops {
+				for i, opn := range p.Ops[g] {
+					e := es[(g+i)%nKeys]
+					opn := opn
+					runs[g] = append(runs[g], func() post {
+						var bad []byte
+						var err error
+						for rep := 0; rep < 60 && bad == nil && err == nil; rep++ {
+							var got, want []byte
+							switch opn {
+							case "KeyID2":
+								got, want = e.iss2.TokenKeyID(), e.wantID
+							case "KeyID3":
+								got, want = e.iss3.TokenKeyID(), e.wantID
+							case "MarshalTokenKey":
+								got, err = util.MarshalTokenKeyPSSOID(e.pub)
+								want = e.want
+							}
+							if err == nil && !bytes.Equal(got, want) {
+								bad = append([]byte{}, got...)
+							}
+						}
+						return func() error {
+							if err != nil {
+								return fmt.Errorf("%s: %v", opn, err)
+							}
+							if bad != nil {
+								return fmt.Errorf("concurrent %s returned %x, which is not the value for this key (%d RSA keys in use at once)", opn, bad, nKeys)
 							}
 							return nil
 						}
